@@ -32,17 +32,7 @@ Section C10.
         (forall k, tfl (fst (fst x)) k = tfl' (fst (fst x)) k) ->
         (forall k, tfr (snd (fst x)) k = tfr' (snd (fst x)) k) ->
         x = y /\ row_gammas rec x = row_gammas rec y /\ row_score rec prior x = row_score rec prior y).
-  Proof.
-    repeat split.
-    - intros adm rules tf T L R x H. apply in_ep_predict in H. destruct H as (n & l & r & _ & -> & _). apply scored_with_row.
-    - intros tfl tfr L R x H. apply in_ep_compare in H. destruct H as (l & r & _ & _ & ->). apply scored_with_row.
-    - intros rules tfe tfn t E N x H. apply in_ep_find_matches in H. destruct H as (l & r & _ & _ & _ & -> & _). apply scored_with_row.
-    - intros adm cluster in_pred tf T C x H. apply in_ep_missing_edges in H.
-      destruct H as (l & r & _ & _ & _ & _ & _ & -> & _). apply scored_with_row.
-    - eapply same_tf_same_row; eauto.
-    - f_equal. eapply same_tf_same_row; eauto.
-    - f_equal. eapply same_tf_same_row; eauto.
-  Qed.
+  Proof. exact (same_score_when_same_tf_full rec pow prior cmps outc). Qed.
 
   (* find_matches_to_new_records returns exactly the (existing, new) pairs admitted by some rule of
      its rule list (all pairs when the list is empty), each once, whose weight is STRICTLY above the
